@@ -768,4 +768,50 @@ def kProg (nilOnClose : Bool) : Prog KShared KPc := ⟨kStep nilOnClose⟩
 
 def kInit (pcs : List KPc) : Cfg KShared KPc := ⟨⟨false, true, 0, 0⟩, pcs⟩
 
+/-! ## ResourceManager.DisposeWithTimeout (graceful shutdown with a deadline)
+
+`DisposeWithTimeout` starts a goroutine that runs `DisposeAll` and sends the result into a channel,
+and waits for that result or for the deadline.  Thread 0 unblocks the slow resource (pending I/O),
+thread 1 is the deadline, thread 2 the caller, thread 3 the worker goroutine.  With the 1-slot
+buffer (`buffered = true`, the code) the worker's send never waits; `buffered = false` is the
+rejected unbuffered channel: the send is a rendezvous with a caller that may already be gone. -/
+
+structure HShared where
+  released : Bool         -- the slow resource's Dispose may finish
+  deadline : Bool         -- the timer / context deadline has fired
+  disposed : Nat
+  offered : Bool          -- a result is in the channel (buffered) / offered by a blocked sender
+  taken : Bool
+  timedOut : Bool         -- the caller returned the timeout result
+  deriving DecidableEq, Repr
+
+inductive HPc | unblock | timer | callWait | wDispose | wSend | wSending | done
+  deriving DecidableEq, Repr
+
+def hStep (buffered : Bool) (_tid : Nat) (sh : HShared) (l : HPc) : HShared × HPc :=
+  match l with
+  | .unblock => ({ sh with released := true }, .done)
+  | .timer => ({ sh with deadline := true }, .done)
+  | .callWait =>
+    if sh.offered && !sh.taken then ({ sh with taken := true }, .done)
+    else if sh.deadline then ({ sh with timedOut := true }, .done)
+    else (sh, .callWait)
+  | .wDispose => if sh.released then ({ sh with disposed := sh.disposed + 1 }, .wSend) else (sh, .wDispose)
+  | .wSend => ({ sh with offered := true }, if buffered then .done else .wSending)
+  | .wSending => if sh.taken then (sh, .done) else (sh, .wSending)
+  | .done => (sh, .done)
+
+def hProg (buffered : Bool) : Prog HShared HPc := ⟨hStep buffered⟩
+
+def hInit : Cfg HShared HPc := ⟨⟨false, false, 0, false, false, false⟩, [.unblock, .timer, .callWait, .wDispose]⟩
+
+def hWeight (l : HPc) : Nat :=
+  match l with
+  | .unblock => 1 | .timer => 1 | .callWait => 1 | .wDispose => 3 | .wSend => 2 | .wSending => 1 | .done => 0
+
+def hMu (c : Cfg HShared HPc) : Nat := (c.ths.map hWeight).sum
+
+def hFinal (buffered : Bool) (s : Schedule) : Cfg HShared HPc :=
+  run (hProg buffered) (s ++ rounds 4 6) hInit
+
 end Tunnox.C16
